@@ -544,14 +544,15 @@ def c07(tier):
 @prop("C12", functions=["pyjelly/serialize/streams.py:*", "pyjelly/serialize/encode.py:*", "pyjelly/serialize/lookup.py:*", "pyjelly/serialize/flows.py:*", "pyjelly/parse/decode.py:*",
                         "pyjelly/integrations/generic/serialize.py:flat_stream_to_frames", "pyjelly/integrations/rdflib/serialize.py:flat_stream_to_frames",
                         "pyjelly/integrations/generic/parse.py:parse_jelly_flat", "pyjelly/integrations/rdflib/parse.py:parse_jelly_flat"],
-      bounds={"quick": {"interleavings": "two workloads (serializer+serializer, serializer+parser, parser+parser; 3 statements / 4 frames each) advanced one generator step at a time under a symbolic schedule of 7 booleans (every interleaving), after a symbolic history of 0..2 created-and-abandoned streams (one abandoned mid-stream, one that raised mid-statement); both integrations",
+      bounds={"quick": {"interleavings": "two workloads (serializer+serializer, serializer+parser, parser+parser at frame/item granularity; Stream-API workloads at statement granularity, also built from ONE shared SerializerOptions object; 3 statements each) advanced one generator step at a time under a symbolic schedule of 7 booleans (every interleaving), after a symbolic history of 0..2 created-and-abandoned streams (one abandoned mid-stream, one that raised mid-statement); both integrations",
                         "determinism": "each workload run twice in one process must be byte-identical"},
               "thorough": {"interleavings": "also three workloads, schedules of 10 booleans"}},
       outside="NOT CLAIMED: pre-emptive THREAD schedules (CrossHair executes one thread; no symbolic thread scheduler for CPython is available) and determinism across PROCESSES / PYTHONHASHSEED values (the seed is fixed before the interpreter starts and cannot be a symbolic variable)",
       explanation="H-INTERLEAVE (reduced scope: generator-step interleavings and same-process determinism only)")
 def c12(tier):
     us = []
-    combos = [[["ser", "A"], ["ser", "B"]], [["ser", "A"], ["parse", "B"]], [["parse", "A"], ["parse", "B"]], [["ser", "A"], ["ser", "A"]]]
+    combos = [[["ser", "A"], ["ser", "B"]], [["ser", "A"], ["parse", "B"]], [["parse", "A"], ["parse", "B"]], [["ser", "A"], ["ser", "A"]],
+              [["sstream", "A"], ["sstream", "C"]], [["stream", "A"], ["stream", "B"]]]
     for integ in ("generic", "rdflib"):
         for ci, ws in enumerate(combos):
             for hh in range(3):
